@@ -179,7 +179,7 @@ func (r *Receiver) SegmentHandlerFunc(w http.ResponseWriter, req *http.Request) 
 				*defaultDur = tfhd.DefaultSampleDuration
 			}
 			if trd.timeScaleOut != trd.timeScaleIn {
-				*defaultDur = *defaultDur * trd.timeScaleOut / trd.timeScaleIn
+				*defaultDur = rescaleDur(*defaultDur, trd.timeScaleIn, trd.timeScaleOut)
 				if tfhd.HasDefaultSampleDuration() { // the stored fragment counts in timeScaleOut
 					tfhd.DefaultSampleDuration = *defaultDur
 				}
@@ -211,7 +211,7 @@ func (r *Receiver) SegmentHandlerFunc(w http.ResponseWriter, req *http.Request) 
 					}
 				}
 				if trd.timeScaleOut != trd.timeScaleIn {
-					t = t * int64(trd.timeScaleOut) / int64(trd.timeScaleIn)
+					t = rescaleTime(t, trd.timeScaleIn, trd.timeScaleOut)
 				}
 
 				rsd.dts = uint64(t)
@@ -257,7 +257,7 @@ func (r *Receiver) SegmentHandlerFunc(w http.ResponseWriter, req *http.Request) 
 			}
 			if trd.timeScaleOut != trd.timeScaleIn && moof.Traf.Trun.HasSampleDuration() {
 				for i := range moof.Traf.Trun.Samples {
-					moof.Traf.Trun.Samples[i].Dur = moof.Traf.Trun.Samples[i].Dur * trd.timeScaleOut / trd.timeScaleIn
+					moof.Traf.Trun.Samples[i].Dur = rescaleDur(moof.Traf.Trun.Samples[i].Dur, trd.timeScaleIn, trd.timeScaleOut)
 				}
 			}
 			dur := uint32(moof.Traf.Trun.Duration(*defaultDur))
@@ -381,6 +381,18 @@ func (r *Receiver) SegmentHandlerFunc(w http.ResponseWriter, req *http.Request) 
 		}
 	}
 	trD.nrSegsReceived++
+}
+
+// rescaleTime converts a time from one timescale to another (rounding down) without forming the
+// product time*timescale, which does not fit 64 bits for wall-clock times in fine timescales.
+func rescaleTime(t int64, from, to uint32) int64 {
+	f, o := int64(from), int64(to)
+	return t/f*o + t%f*o/f
+}
+
+// rescaleDur converts a sample duration from one timescale to another (rounding down).
+func rescaleDur(dur, from, to uint32) uint32 {
+	return uint32(uint64(dur) * uint64(to) / uint64(from))
 }
 
 // registerStream makes a stream known the first time it is seen: its directory is created
